@@ -168,17 +168,36 @@ class MatchesSetwise:
         self.matchers = matchers
 
     def match(self, observed):
-        remaining_matchers = set(self.matchers)
-        not_matched = []
-        for value in observed:
-            for matcher in remaining_matchers:
-                if matcher.match(value) is None:
-                    remaining_matchers.remove(matcher)
-                    break
-            else:
-                not_matched.append(value)
+        observed = list(observed)
+        matchers = list(self.matchers)
+        # Look for a one-to-one assignment of values to matchers.  A greedy
+        # choice can pair a value with a matcher that a later value needs, so
+        # earlier pairings are revised when necessary (augmenting paths).
+        accepts = [
+            [matcher.match(value) is None for matcher in matchers]
+            for value in observed
+        ]
+        assigned = [None] * len(matchers)
+
+        def assign(value_index, tried):
+            for matcher_index, accepted in enumerate(accepts[value_index]):
+                if accepted and matcher_index not in tried:
+                    tried.add(matcher_index)
+                    holder = assigned[matcher_index]
+                    if holder is None or assign(holder, tried):
+                        assigned[matcher_index] = value_index
+                        return True
+            return False
+
+        not_matched = [
+            value for index, value in enumerate(observed) if not assign(index, set())
+        ]
+        remaining_matchers = [
+            matcher
+            for index, matcher in enumerate(matchers)
+            if assigned[index] is None
+        ]
         if not_matched or remaining_matchers:
-            remaining_matchers = list(remaining_matchers)
             # There are various cases that all should be reported somewhat
             # differently.
 
